@@ -23,6 +23,9 @@ structure Cfg where
   redispatch : Bool
   /-- janet_thread_chan_cb delivers only if `fiber->sched_id == sched_id` -/
   checkSched : Bool
+  /-- janet_thread_chan_cb, forwarding a stale wake-up to the next pending reader / writer: the forwarded message carries the
+      NEXT entry's own `sched_id` (`reader.sched_id` / `writer.sched_id`), not the stale one it arrived with -/
+  forwardOwnSched : Bool := true
   deriving Repr, DecidableEq
 
 abbrev Item := Nat
@@ -155,7 +158,8 @@ def cb (cfg : Cfg) (s : St) (m : Msg) : St :=
       if cfg.redispatch then
         match s.readers with
         | r :: rs =>
-          { s with readers := rs, flight := s.flight ++ [⟨r.thread, r.fiber, r.sched, .read x⟩], staleReads := s.staleReads + 1 }
+          let sid := if cfg.forwardOwnSched then r.sched else m.sched
+          { s with readers := rs, flight := s.flight ++ [⟨r.thread, r.fiber, sid, .read x⟩], staleReads := s.staleReads + 1 }
         | [] =>
           if cfg.requeue then
             { s with items := if cfg.requeueHead then x :: s.items else s.items ++ [x], staleReads := s.staleReads + 1 }
@@ -164,7 +168,9 @@ def cb (cfg : Cfg) (s : St) (m : Msg) : St :=
     | .write =>
       if cfg.redispatch then
         match s.writers with
-        | w :: ws => { s with writers := ws, flight := s.flight ++ [⟨w.thread, w.fiber, w.sched, .write⟩] }
+        | w :: ws =>
+          let sid := if cfg.forwardOwnSched then w.sched else m.sched
+          { s with writers := ws, flight := s.flight ++ [⟨w.thread, w.fiber, sid, .write⟩] }
         | [] => s
       else s
 
